@@ -151,6 +151,11 @@ func (s *pcScript) handler(b *sarama.MockBroker) func(string, interface{}) inter
 func observePC(rc *runCtx, pc sarama.PartitionConsumer, trig <-chan struct{}, syncClose bool, pause time.Duration, tag string) (obs []string) {
 	msgs, errs := pc.Messages(), pc.Errors()
 	log := func(s string) { obs = append(obs, s) }
+	if rc.spec.p("late", 0) == 1 {
+		// the application turns to its channels late: whatever the partition consumer did by itself (shut itself
+		// down after OffsetOutOfRange) has happened, both closes can be observed before the close call
+		time.Sleep(40 * time.Millisecond)
+	}
 	deadline := time.After(hangBound + 5*time.Second)
 	var closeRet chan int
 	closing := false
@@ -230,17 +235,21 @@ func observePC(rc *runCtx, pc sarama.PartitionConsumer, trig <-chan struct{}, sy
 					msgs = nil
 				}
 			}
-			select {
-			case _, ok := <-errs:
-				if !ok {
-					log("Closed 1")
-				} else {
-					log("Ev 1")
-					rc.fail("event-after-close:pcons-errors", tag+": error delivered after Close returned")
+			// (errs == nil: its close was already observed before Close was called - a partition consumer that
+			// shut itself down after OffsetOutOfRange; a receive from the nil channel would fall into default)
+			if errs != nil {
+				select {
+				case _, ok := <-errs:
+					if !ok {
+						log("Closed 1")
+					} else {
+						log("Ev 1")
+						rc.fail("event-after-close:pcons-errors", tag+": error delivered after Close returned")
+					}
+				default:
+					log("Ret 9 9")
+					rc.fail("open-after-close:pcons-errors", tag+": Errors() not closed when Close returned")
 				}
-			default:
-				log("Ret 9 9")
-				rc.fail("open-after-close:pcons-errors", tag+": Errors() not closed when Close returned")
 			}
 			errs = nil
 		case <-closeDeadline:
